@@ -20,7 +20,7 @@ RULE = (
     "arrangement of its supporting lines, all lattice points of its box +-2, every vertex, edge points at "
     "t=1/4,1/2,3/4, points at normal offsets +-{1e-4,1e-3,1e-2}*size from every edge/arc at t=1/8..7/8 (the sagitta band "
     "of curved segments), far points. queries: `p in S`, contains_point(p, True/False), `p in curve`. "
-    "IN => True, OUT => False, ON => the flag. non-trivial = point within the shape's box; distinct = (shape, point)."
+    "IN => True, OUT => False, ON => the flag (ON is judged for exact polygon boundary points and for constructed boundary points segment(t) of curved/float shapes). non-trivial = point within the shape's box; distinct = (shape, point)."
 )
 ASSUMPTIONS = [
     "points closer than 1e-4*size to a boundary (other than exact boundary points of polygons) are not judged: the library's own on-curve tolerance is 1e-6 absolute",
@@ -138,9 +138,10 @@ def run_case(spec):
                 if reg.near_boundary(p, size * F(1, 20000)):
                     hist["skipped-too-close"] = hist.get("skipped-too-close", 0) + 1
                     continue
-            elif not polygonal or is_float:
-                # ON for curved/float data means 'cannot be separated': only exact polygon
-                # boundary points are judged as ON
+            elif (not polygonal or is_float) and tag not in ("vertex", "edge"):
+                # ON for curved/float data means 'cannot be separated': judged only for the
+                # points constructed ON the boundary (vertices, segment(t) at t=1/4,1/2,3/4:
+                # within 1e-15*size of it after rounding, the library's tolerance is 1e-6)
                 hist["skipped-on-inexact"] = hist.get("skipped-on-inexact", 0) + 1
                 continue
             q = (float(p[0]), float(p[1])) if is_float else p
